@@ -66,6 +66,13 @@ uint64_t STUB(fread)(uint8_t* p, uint64_t size, uint64_t n, uint8_t* f) {
    * passed) receives the array's stale bytes instead of being left alone.  freadx() throws on every short read, so the tail
    * is never looked at; keeping the copy unconditional keeps header bytes concrete for the solver whatever flen_ is. */
   uint64_t got = 0;
+  if (n == 2 && fpos_ + 1 < FCAP) {
+    /* same bytes, written as one 2-byte object: clang turns load()'s `char sig[2]` into an i16 slot, and CBMC folds the
+     * signature to a constant only when the slot is assigned as a whole (two byte-wise updates stay symbolic) */
+    uint8_t two[2] = {file_[fpos_], file_[fpos_ + 1]};
+    memcpy(p, two, 2);
+    got = (IN_FILE(fpos_) ? 1 : 0) + (IN_FILE(fpos_ + 1) ? 1 : 0);
+  } else
   for (uint64_t i = 0; i < n; i++) { if (fpos_ + i < FCAP) p[i] = file_[fpos_ + i]; if (IN_FILE(fpos_ + i)) got++; }
   fpos_ += n;
   if (got < n) feof_ = 1;
